@@ -1,4 +1,7 @@
 import CwPlus.Lemmas.Ics20
+import CwPlus.Lemmas.Ics20Migrate
+import CwPlus.Lemmas.Ics20Env
+import CwPlus.Lemmas.Ics20TotalSent
 /-!
 # C12 — cw20-ics20: channel balance tracks vouchers exactly; error acks change nothing
 
@@ -6,6 +9,22 @@ Histories (`runG`) are arbitrary lists of ops — user transfers (native, cw20 `
 calls), incoming packets with arbitrary fields, acknowledgements / timeouts (at most one per packet in
 flight, with the original data: `admissible`), governance ops and migrations — with every payout /
 refund sub-call failing or succeeding arbitrarily (`fail` flag, receiver validity, faulty tokens).
+
+## Environment assumptions (`structure EnvAssumptions`, Lemmas/Ics20Env.lean)
+
+* **E1 `hook_only_from_send`** — a real cw20 token contract calls `ExecuteMsg::Receive` only from its own
+  `Send`, after crediting the contract; a direct `Receive` never has a real token as sender.
+* **E2 `never_calls_itself`** — the ics20 contract is never the sender of a transfer.
+* **E3 `native_not_cw20`** — no native denomination has the form `cw20:…`.
+
+The model's `World.exec` refuses transactions violating E1 / E2 (they are no-ops of `runG`);
+`outstanding_identity_explicit_env` restates the accounting identity over the unguarded semantics
+`runGRaw` with `EnvAssumptions` as an explicit hypothesis.  E3 is what makes the model's structural keys
+`(channel, native d | cw20 addr)` faithful to the contract's string keys `(channel, denom string)`:
+`storage_keys_faithful` (explicit hypothesis; `render_collision` shows the collision without it).
+`success_ack_effects` needs "the receiver is not the contract itself" and has it as the explicit
+hypothesis `hrs`.  IBC core's guarantee (one acknowledgement or timeout per sent packet, original
+data) is the explicit predicate `admissible` inside `runG`.
 -/
 namespace CwPlus.Props.C12
 open CwPlus CwPlus.Ics20
@@ -13,7 +32,12 @@ open CwPlus CwPlus.Ics20
 /-- **C12, outstanding_identity**: on every history, for every channel and denomination,
 `outstanding = sent − failedOrTimedOut − redeemed` (stated additively).  `sent` starts as whatever is
 outstanding in the start state and is re-baselined by a migration (which books in-flight tokens of
-the old rules as sent). -/
+the old rules as sent).  The re-baselining makes the identity trivially preserved *at* the migration
+step; what the migration really does is `migrate_books_inflight` (outstanding := real holdings,
+total_sent grows by the same difference), and `sent_tracks_total_sent` shows that the re-baselined
+`sent` is, up to the start offset, the contract's own `total_sent` counter on every history
+(`outstanding_identity_total_sent`: the identity with `sent` read off `total_sent`).  For start states
+with packets already in flight see `outstanding_identity_inflight`. -/
 theorem outstanding_identity (w : World) (ops : List (Block × Op)) (c : String) (d : Denom) :
     let wg := runG (w, Ghost.init w) ops
     outstanding wg.1.st c d + wg.2.failed (c, d) + wg.2.redeemed (c, d) = wg.2.sent (c, d) := by
@@ -469,6 +493,204 @@ theorem migrate_v1_config {s s' : State} {gas : Option Nat} {hold : Denom → Op
   split <;> exact e3
 
 
+/-! ## The upgrade path: migrating from the pre-0.13.1 rules while tokens are still outstanding -/
+
+/-- **C12, migrate_books_inflight**: a successful `migrate` from a stored version ≤ 0.13.0 (v1 → v2 →
+current or v2 → current) of a one-channel contract (distinct storage keys): for every denomination with
+an entry on that channel, the real holdings `bal` existed and were at least the booked outstanding
+balance, and afterwards `outstanding = bal` (= the real holdings, which `migrate` does not move) and
+`total_sent` grew by exactly the same difference `bal − outstanding_before` — the tokens in flight
+under the old rules (escrowed, not yet acknowledged) are booked as if they had been added when sent. -/
+theorem migrate_books_inflight {w w' : World} {blk : Block} {g : Option Nat} {o : Outcome} {ch : String}
+    (hnd : AMap.NodupKeys w.st.chan) (hv : Version.le w.st.version MIGRATE_VERSION_3 = true)
+    (hch : w.st.channels = [ch]) (h : w.exec blk (.migrate g) = .ok (w', o))
+    {d : Denom} {cs : ChanState} (hg : w.st.chan.get? (ch, d) = some cs) :
+    ∃ bal, w.holdings d = some bal ∧ w'.holdings d = some bal ∧ cs.outstanding ≤ bal ∧
+      w'.st.chan.get? (ch, d) = some ⟨bal, cs.totalSent + (bal - cs.outstanding)⟩ ∧
+      outstanding w'.st ch d = bal ∧
+      totAt w'.st.chan (ch, d) = totAt w.st.chan (ch, d) + (bal - outstanding w.st ch d) ∧
+      outstanding w'.st ch d = outstanding w.st ch d + (bal - outstanding w.st ch d) := by
+  obtain ⟨hm, e2, e3, e4, e5, _⟩ := exec_migrate_frame h
+  obtain ⟨r1, _⟩ := migrate_legacy_entry hnd hv hch hm
+  obtain ⟨bal, hb, hle, hget⟩ := r1 d cs hg
+  refine ⟨bal, hb, by rw [holdings_eq_of_frame e2 e3 e4 e5 d]; exact hb, hle, hget, ?_, ?_, ?_⟩
+  · simp [outstanding, hget]
+  · simp [totAt, outstanding, hget, hg]
+  · simp [outstanding, hget, hg]; omega
+
+/-- The other keys: entries of a channel other than the migrated one (there are none in a well-formed
+state) and absent keys are not touched by the migration. -/
+theorem migrate_other_keys {w w' : World} {blk : Block} {g : Option Nat} {o : Outcome} {ch : String}
+    (hnd : AMap.NodupKeys w.st.chan) (hv : Version.le w.st.version MIGRATE_VERSION_3 = true)
+    (hch : w.st.channels = [ch]) (h : w.exec blk (.migrate g) = .ok (w', o)) (k : Key)
+    (hk : k ∉ AMap.keys w.st.chan ∨ k.1 ≠ ch) : w'.st.chan.get? k = w.st.chan.get? k :=
+  (migrate_legacy_entry hnd hv hch (exec_migrate_frame h).1).2 k hk
+
+/-- **C12, redeem_after_migrate_ok**: after such a migration every token the contract holds for the
+channel is redeemable / refundable as far as the books are concerned: for any amount up to the real
+holdings `bal` of a denomination of the channel, the `reduce_channel_balance` step (of an incoming
+redemption, an error acknowledgement or a timeout) cannot fail. -/
+theorem redeem_after_migrate_ok {w w' : World} {blk : Block} {g : Option Nat} {o : Outcome} {ch : String}
+    (hnd : AMap.NodupKeys w.st.chan) (hv : Version.le w.st.version MIGRATE_VERSION_3 = true)
+    (hch : w.st.channels = [ch]) (h : w.exec blk (.migrate g) = .ok (w', o))
+    {d : Denom} {cs : ChanState} (hg : w.st.chan.get? (ch, d) = some cs)
+    {bal amt : Nat} (hb : w'.holdings d = some bal) (hle : amt ≤ bal) :
+    ∃ m, reduceBalance w'.st.chan ch d amt = .ok m ∧ outAt m (ch, d) = bal - amt := by
+  obtain ⟨bal', _, hb', _, hget, _⟩ := migrate_books_inflight hnd hv hch h hg
+  rw [hb] at hb'; cases hb'
+  refine ⟨_, reduceBalance_ok_of_le hget hle, ?_⟩
+  simp [outAt]
+
+/-- **C12, receive_after_migrate_ok**: a later honest redemption — an incoming packet on the migrated
+channel whose voucher denomination carries the packet's source port/channel, for an in-flight amount
+up to the holdings, of a payable token — is accepted by `do_ibc_packet_receive` (not refused for
+insufficient channel balance): it produces the payout sub-message for the full amount. -/
+theorem receive_after_migrate_ok {w w' : World} {blk : Block} {g : Option Nat} {o : Outcome}
+    (hnd : AMap.NodupKeys w.st.chan) (hv : Version.le w.st.version MIGRATE_VERSION_3 = true)
+    {p : PacketIn} (hch : w.st.channels = [p.destChan]) (h : w.exec blk (.migrate g) = .ok (w', o))
+    {d : Denom} {cs : ChanState} (hg : w.st.chan.get? (p.destChan, d) = some cs)
+    {bal amt : Nat} (hb : w'.holdings d = some bal) (hle : amt ≤ bal)
+    (hamt : p.amount = some amt) (hvch : p.voucher = some (p.srcPort, p.srcChan, d))
+    {tv : Bool} {gas : Option Nat} (hgas : checkGasLimit w'.st d tv = .ok gas) :
+    ∃ s1, doReceive w'.st p tv = .ok (s1, ⟨p.receiver, amt, d, gas, RECEIVE_ID⟩) ∧
+      outstanding s1 p.destChan d = bal - amt := by
+  obtain ⟨bal', _, hb', _, hget, _⟩ := migrate_books_inflight hnd hv hch h hg
+  rw [hb] at hb'; cases hb'
+  refine ⟨_, doReceive_ok_of_entry hget hamt hvch hle hgas, ?_⟩
+  simp [outstanding]
+
+/-- **C12, refund_after_migrate_ok**: likewise a later error acknowledgement or timeout of a transfer
+that was in flight during the migration (amount up to the holdings, payable token) is accepted by
+`on_packet_failure`: the refund sub-message for the full amount is produced. -/
+theorem refund_after_migrate_ok {w w' : World} {blk : Block} {g : Option Nat} {o : Outcome} {ch : String}
+    (hnd : AMap.NodupKeys w.st.chan) (hv : Version.le w.st.version MIGRATE_VERSION_3 = true)
+    (hch : w.st.channels = [ch]) (h : w.exec blk (.migrate g) = .ok (w', o))
+    {pk : Packet} {cs : ChanState} (hg : w.st.chan.get? (ch, pk.denom) = some cs)
+    {bal : Nat} (hb : w'.holdings pk.denom = some bal) (hle : pk.amount ≤ bal)
+    {tv : Bool} {gas : Option Nat} (hgas : checkGasLimit w'.st pk.denom tv = .ok gas) :
+    ∃ s1, onPacketFailure w'.st ch (some pk) tv = .ok (s1, ⟨pk.sender, pk.amount, pk.denom, gas, ACK_FAILURE_ID⟩) ∧
+      outstanding s1 ch pk.denom = bal - pk.amount := by
+  obtain ⟨bal', _, hb', _, hget, _⟩ := migrate_books_inflight hnd hv hch h hg
+  rw [hb] at hb'; cases hb'
+  refine ⟨_, onPacketFailure_ok_of_entry hget hle hgas, ?_⟩
+  simp [outstanding]
+
+/-! ## The re-baselined ledger is the contract's own `total_sent` counter -/
+
+/-- **C12, outstanding_identity with packets in flight at the start**: the identity of
+`outstanding_identity` for a start state that already has packets in flight (`fl`: sent by an earlier
+history — e.g. under the old code, before a migration — and still awaiting their acknowledgement or
+timeout, which `admissible` then lets through once each). -/
+theorem outstanding_identity_inflight (w : World) (fl : List (String × Packet)) (ops : List (Block × Op))
+    (c : String) (d : Denom) :
+    let wg := runG (w, Ghost.initWith w fl) ops
+    outstanding wg.1.st c d + wg.2.failed (c, d) + wg.2.redeemed (c, d) = wg.2.sent (c, d) := by
+  intro wg
+  exact (runG_ledger ops (ledgerInv_initWith w fl)).1 (c, d)
+
+/-- **C12, sent_tracks_total_sent**: on every history from a well-formed state — with migrations anywhere,
+and any set `fl` of packets in flight at the start — the ghost ledger `sent` of `outstanding_identity` and
+the contract's own counter `total_sent` (reported by `Channel{id}`) move in lock step, for every channel
+and denomination: a transfer adds its amount to both, and a migration from ≤ 0.13.0, which re-baselines
+`sent`, adds to `total_sent` exactly what it adds to `outstanding` (the in-flight tokens it books).  So
+the re-baselining is not an artefact of the ghost: `sent − sent₀ = total_sent − total_sent₀` throughout. -/
+theorem sent_tracks_total_sent (w : World) (fl : List (String × Packet)) (ops : List (Block × Op))
+    (hwf : WellFormed w.st) (c : String) (d : Denom) :
+    let wg := runG (w, Ghost.initWith w fl) ops
+    totAt wg.1.st.chan (c, d) + outstanding w.st c d = wg.2.sent (c, d) + totAt w.st.chan (c, d) := by
+  intro wg
+  have h0 : TotInv (totAt w.st.chan) (outAt w.st.chan) (w, Ghost.initWith w fl) := by
+    intro k; simp only [Ghost.init, Ghost.initWith]; omega
+  have := runG_totInv ops hwf (ledgerInv_initWith w fl) h0 (c, d)
+  rw [outstanding_eq]; exact this
+
+/-- **C12, outstanding_identity in observable terms**: combining the two, on every history (migrations
+included) `outstanding + failedOrTimedOut + redeemed = outstanding₀ + (total_sent − total_sent₀)`, stated
+additively: the accounting identity with "sent" read off the contract's own `total_sent`. -/
+theorem outstanding_identity_total_sent (w : World) (fl : List (String × Packet)) (ops : List (Block × Op))
+    (hwf : WellFormed w.st) (c : String) (d : Denom) :
+    let wg := runG (w, Ghost.initWith w fl) ops
+    outstanding wg.1.st c d + wg.2.failed (c, d) + wg.2.redeemed (c, d) + totAt w.st.chan (c, d)
+      = outstanding w.st c d + totAt wg.1.st.chan (c, d) := by
+  have h1 := outstanding_identity_inflight w fl ops c d
+  have h2 := sent_tracks_total_sent w fl ops hwf c d
+  simp only at h1 h2 ⊢
+  omega
+
+/-- From a fresh instantiation: `outstanding + failedOrTimedOut + redeemed = total_sent`. -/
+theorem outstanding_identity_fresh {m : InstMsg} {s : State} (hi : instantiate m = .ok s) (w : World) (ops : List (Block × Op))
+    (c : String) (d : Denom) :
+    let wg := runG ({ w with st := s }, Ghost.init { w with st := s }) ops
+    outstanding wg.1.st c d + wg.2.failed (c, d) + wg.2.redeemed (c, d) = totAt wg.1.st.chan (c, d) := by
+  intro wg
+  have h := outstanding_identity_total_sent { w with st := s } [] ops (instantiate_wellFormed hi) c d
+  rw [Ghost.initWith_nil] at h
+  simp [instantiate] at hi
+  obtain ⟨_, allow, _, rfl⟩ := hi
+  simpa [totAt, outstanding] using h
+
+/-! ## Error acknowledgements are unobservable -/
+
+/-- `REPLY_ARGS` is not observable: no query reads it. -/
+theorem replyArgs_not_observable (s : State) (r : Option ReplyArgs) :
+    (∀ id, queryChannel { s with replyArgs := r } id = queryChannel s id) ∧
+    queryConfig { s with replyArgs := r } = queryConfig s ∧
+    queryAdmin { s with replyArgs := r } = queryAdmin s ∧
+    (∀ c, queryAllowed { s with replyArgs := r } c = queryAllowed s c) ∧
+    (∀ a l, queryListAllowed { s with replyArgs := r } a l = queryListAllowed s a l) ∧
+    ({ s with replyArgs := r } : State).channels = s.channels :=
+  ⟨fun _ => rfl, rfl, rfl, fun _ => rfl, fun _ _ => rfl, rfl⟩
+
+/-- **C12, error_ack_queries_unchanged**: whenever the final acknowledgement of an incoming packet is an
+error, everything observable is exactly as before the packet: the result of every query of the
+contract (`Channel{id}` = balances and total_sent per denomination, `ListChannels`, `Config`, `Admin`,
+`Allowed`, `ListAllowed` for every argument), the contract's real holdings of every denomination and
+every bank and cw20 balance of every account; and no payout went out.  (The only storage item that may
+differ, `REPLY_ARGS`, is read by no query.) -/
+theorem error_ack_queries_unchanged {w w' : World} {blk : Block} {p : PacketIn} {rv tv f : Bool} {o : Outcome}
+    (h : w.exec blk (.recv p rv tv f) = .ok (w', o)) (ha : o.ack = some .error) :
+    (∀ id, queryChannel w'.st id = queryChannel w.st id) ∧
+    w'.st.channels = w.st.channels ∧
+    queryConfig w'.st = queryConfig w.st ∧
+    queryAdmin w'.st = queryAdmin w.st ∧
+    (∀ c, queryAllowed w'.st c = queryAllowed w.st c) ∧
+    (∀ a l, queryListAllowed w'.st a l = queryListAllowed w.st a l) ∧
+    (∀ d, w'.holdings d = w.holdings d) ∧
+    (∀ a d, w'.bankBal a d = w.bankBal a d) ∧
+    (∀ t a, w'.tokBal t a = w.tokBal t a) := by
+  have e := error_ack_state_unchanged h ha
+  generalize w'.st.replyArgs = r at e
+  subst e
+  exact ⟨fun _ => rfl, rfl, rfl, rfl, fun _ => rfl, fun _ _ => rfl, fun d => by cases d <;> rfl, fun _ _ => rfl, fun _ _ => rfl⟩
+
+/-! ## Explicit environment assumptions -/
+
+/-- **C12, outstanding_identity with explicit environment**: the accounting identity
+`outstanding + failedOrTimedOut + redeemed = sent` on every history of the *unguarded* semantics that
+satisfies the environment assumptions E1–E3. -/
+theorem outstanding_identity_explicit_env (w : World) (ops : List (Block × Op))
+    (henv : EnvAssumptions w.self w.tokens ops) (c : String) (d : Denom) :
+    let wg := runGRaw (w, Ghost.init w) ops
+    outstanding wg.1.st c d + wg.2.failed (c, d) + wg.2.redeemed (c, d) = wg.2.sent (c, d) := by
+  intro wg
+  have : wg = runG (w, Ghost.init w) ops := runGRaw_eq_runG (w, Ghost.init w) ops henv
+  rw [this]
+  exact outstanding_identity w ops c d
+
+/-- **C12, storage_keys_faithful** (where E3 is needed): on every history satisfying the environment
+assumptions — in particular no native denomination attached to a transfer starts with `cw20:` — from a
+well-formed state whose stored native denominations satisfy E3 (e.g. a fresh instantiation), the
+books have exactly one entry per *storage* key: two entries under the same channel whose
+denominations render to the same string (`Amount::denom()`, what `Channel{id}` reports and what the
+contract uses as map key) are the same entry.  Hence every per-`(channel, denomination)` statement
+about the model is a statement about the contract's `CHANNEL_STATE[(channel, denom string)]`. -/
+theorem storage_keys_faithful (w : World) (ops : List (Block × Op))
+    (henv : EnvAssumptions w.self w.tokens ops) (hwf : WellFormed w.st) (hk : KeysFaithful w.st.chan)
+    {e e' : Key × ChanState} (he : e ∈ (runRaw w ops).st.chan) (he' : e' ∈ (runRaw w ops).st.chan)
+    (hc : e.1.1 = e'.1.1) (hr : e.1.2.render = e'.1.2.render) : e = e' := by
+  obtain ⟨h1, h2⟩ := runRaw_keysFaithful w ops henv hwf hk
+  exact entries_eq_of_same_storage_key h1.1 h2 he he' hc hr
+
 /-! ## Non-vacuity: concrete histories -/
 
 def w0 : World :=
@@ -500,5 +722,78 @@ example : (runG (w0, Ghost.init w0) hist).1.tokBal "T1" "alice" = 75 := by decid
 /-- the emitted packet of the first transfer -/
 example : ((w0.exec b0 (.sendCw20 "alice" "T1" 40 (some tm))).toOption.map (·.2.sent)) =
     some [⟨"channel-0", ⟨40, .cw20 "T1", "remote-bob", "alice", some "memo"⟩, 1000 + 3600 * 1000000000⟩] := by decide
+
+
+/-! ## Non-vacuity: the upgrade path and unobservable error acknowledgements -/
+
+/-- A contract stored by release 0.11.1 (pre-allow-list layout: `gov_contract` inside the config, no `ADMIN`
+item, no allow list): one channel; it booked 40 uatom / 10 T1 (acknowledged transfers) and holds 100 uatom /
+25 T1 — 60 uatom and 15 T1 are in flight. -/
+def wL : World :=
+  { st := { config := ⟨3600, none⟩, v1gov := some "gov", admin := none, allow := [], channels := ["channel-0"],
+            chan := [(("channel-0", .native "uatom"), ⟨40, 70⟩), (("channel-0", .cw20 "T1"), ⟨10, 10⟩)],
+            versionName := CONTRACT_NAME, version := ⟨0, 11, 1, none⟩ },
+    self := "ics20", tokens := ["T1"], faulty := [], bank := [(("ics20", "uatom"), 100)],
+    tok := [(("T1", "ics20"), 25)] }
+
+/-- the hypotheses of `migrate_books_inflight` / `redeem_after_migrate_ok` hold on `wL` -/
+example : AMap.NodupKeys wL.st.chan ∧ Version.le wL.st.version MIGRATE_VERSION_3 = true ∧
+    wL.st.channels = ["channel-0"] ∧ (wL.exec b0 (.migrate (some 5000))).isOk = true ∧
+    wL.st.chan.get? ("channel-0", .cw20 "T1") = some ⟨10, 10⟩ := by
+  refine ⟨by unfold AMap.NodupKeys; decide, by decide, by decide, by decide, by decide⟩
+
+/-- after the migration: outstanding = holdings, total_sent grew by the same 60 / 15 -/
+example : (wL.step b0 (.migrate (some 5000))).st.chan =
+    [(("channel-0", .native "uatom"), ⟨100, 130⟩), (("channel-0", .cw20 "T1"), ⟨25, 25⟩)] := by decide
+
+/-- migrate, then the in-flight 15 T1 fail remotely and are refunded, and the other 10 T1 plus all 100 uatom
+are redeemed by incoming packets: every step succeeds, the books end at zero (T1 is payable through the
+default gas limit set by the migration). -/
+def histL : List (Block × Op) :=
+  [(b0, .migrate (some 5000)),
+   (b0, .timeout "channel-0" (some ⟨15, .cw20 "T1", "remote-bob", "alice", none⟩) true true false),
+   (b0, .recv (pkt (.cw20 "T1") 10) true true false),
+   (b0, .recv (pkt (.native "uatom") 100) true true false)]
+
+example : (run wL histL).st.chan = [(("channel-0", .native "uatom"), ⟨0, 130⟩), (("channel-0", .cw20 "T1"), ⟨0, 25⟩)] ∧
+    (run wL histL).tokBal "T1" "alice" = 25 ∧ (run wL histL).bankBal "alice" "uatom" = 100 := by decide
+
+/-- an error acknowledgement that *does* change storage (`REPLY_ARGS` is written, the payout to an invalid
+receiver fails, `reply` restores the balance): ack = error, and the books are the same -/
+example : ((run w0 (hist.take 2)).exec b0 (.recv (pkt (.cw20 "T1") 10) false true false)).toOption.map
+      (fun r => (r.2.ack, r.1.st.replyArgs, r.1.st.chan == (run w0 (hist.take 2)).st.chan)) =
+    some (some .error, some ⟨"channel-0", .cw20 "T1", 10⟩, true) := by decide
+
+/-- `sent_tracks_total_sent` on the legacy history: the migration books 60 uatom in flight — the ghost
+`sent` goes from 40 to 100, the contract's `total_sent` from 70 to 130. -/
+example : WellFormed wL.st := ⟨by unfold AMap.NodupKeys; decide, by decide⟩
+/-- the 15 T1 sent under the old code are in flight at the start -/
+def flL : List (String × Packet) := [("channel-0", ⟨15, .cw20 "T1", "remote-bob", "alice", none⟩)]
+example : (runG (wL, Ghost.initWith wL flL) histL).2.sent ("channel-0", .native "uatom") = 100 ∧
+    totAt (runG (wL, Ghost.initWith wL flL) histL).1.st.chan ("channel-0", .native "uatom") = 130 ∧
+    (runG (wL, Ghost.initWith wL flL) histL).2.redeemed ("channel-0", .native "uatom") = 100 ∧
+    (runG (wL, Ghost.initWith wL flL) histL).2.failed ("channel-0", .cw20 "T1") = 15 ∧
+    (runG (wL, Ghost.initWith wL flL) histL).2.sent ("channel-0", .cw20 "T1") = 25 := by decide
+
+/-- The environment assumptions hold of the demo history, and a state with the keys of `wL` is faithful. -/
+example : EnvAssumptions w0.self w0.tokens hist := by
+  refine ⟨?_, ⟨?_, ?_⟩, ?_⟩
+  · intro blk snd funds sender amt msg hm; simp [hist] at hm
+  · intro blk snd funds msg hm
+    simp [hist] at hm
+    obtain ⟨_, rfl, _⟩ := hm; decide
+  · intro blk snd token amt msg hm
+    simp [hist] at hm
+    obtain ⟨_, rfl, _⟩ := hm; decide
+  · intro blk snd funds msg hm f hf
+    simp [hist] at hm
+    obtain ⟨_, _, rfl, _⟩ := hm
+    simp at hf; subst hf; exact nativeOk_of_take (by decide)
+example : KeysFaithful wL.st.chan := by
+  intro k hk
+  simp [wL, AMap.keys] at hk
+  rcases hk with rfl | rfl
+  · exact nativeOk_of_take (by decide)
+  · trivial
 
 end CwPlus.Props.C12
